@@ -340,6 +340,10 @@ def ac_pairs(q, order_rng=None):
         fa = sorted(g['forbidden_aggs'])
         if len(fa) == 1:
             pairs.append(('member_of' + s, '!' + fa[0]))
+        elif fa and order_rng is not None and order_rng.random() < 0.5:
+            # (repeated negative values: one parameter per aggregate)
+            for a in fa:
+                pairs.append(('member_of' + s, '!' + a))
         elif fa:
             pairs.append(('member_of' + s, '!in:' + ','.join(fa)))
         if g['in_tree']:
